@@ -150,6 +150,52 @@ fn quoted_number(line: &str, key: &str) -> Option<u64> {
     }
 }
 
+/// The statistics thread sorts the collected messages by their leading offset and extracts their codes: every
+/// message must be acceptable to that stage (it parses `0x` + upper-case hex digits), and the sorted list must be
+/// in ascending order of the offsets the messages really carry.
+pub fn check_sortable(msgs: &[String]) -> Option<(String, String)> {
+    use fastpasta::stats::stats_collector::StatsCollector;
+    use fastpasta::stats::{StatType, SystemId};
+    if msgs.is_empty() {
+        return None;
+    }
+    let r = crate::val::guarded(|| {
+        let mut c = StatsCollector::with_alpide_stats();
+        c.collect(StatType::SystemId(SystemId::ITS));
+        // the analysis thread announces the layer / stave of every RDH it sees (any 3-bit layer, 6-bit stave)
+        for layer in 0..8u8 {
+            for stave in 0..64u8 {
+                c.collect(StatType::LayerStaveSeen { layer, stave });
+            }
+        }
+        for m in msgs {
+            c.collect(StatType::Error(m.clone().into_boxed_str()));
+        }
+        c.finalize(false);
+        serde_json::to_value(&c).ok()
+    });
+    match r {
+        Err(p) => {
+            let bad = msgs.iter().find(|m| !m.starts_with("0x") || m[2..].chars().take_while(|c| *c != ':').any(|c| !(c.is_ascii_digit() || ('A'..='F').contains(&c)))).cloned().unwrap_or_default();
+            Some((format!("message-rejected-by-the-error-sorter:{}", crate::val::panic_site(&p)), format!("the statistics collector panics on these messages ({p}); e.g. {}", first_line(&bad))))
+        }
+        Ok(v) => {
+            let listed: Vec<u64> = v
+                .as_ref()
+                .and_then(|v| v["error_stats"]["reported_errors"].as_array().cloned())
+                .unwrap_or_default()
+                .iter()
+                .filter_map(|m| m.as_str().and_then(rules::parse_error_message).map(|x| x.0))
+                .collect();
+            if listed.windows(2).any(|w| w[0] > w[1]) {
+                let i = listed.windows(2).position(|w| w[0] > w[1]).unwrap();
+                return Some(("messages-not-sorted-by-offset".into(), format!("after the collector's sort the message at {:#X} precedes the one at {:#X}", listed[i], listed[i + 1])));
+            }
+            None
+        }
+    }
+}
+
 fn first_line(m: &str) -> String {
     m.lines().next().unwrap_or("").chars().take(200).collect()
 }
